@@ -38,7 +38,8 @@ RULE = ('models with 3-6 functions, an external entity with 2 bridges, a class w
         'group; bodies generated over integer/string/boolean parameters with calls to lower-ranked elements '
         'of every kind (in expressions, statements, where clauses and loop conditions), bounded recursion '
         'on a decreasing integer parameter and mutual recursion, every return form (value, bare, none), '
-        'the same local variable names in every body; rows written in random order (enumerator and '
+        'the same local variable names in every body; a second external entity with a bridge, and a function, carrying the '
+        'name of a bridge of the first; rows written in random order (enumerator and '
         'parameter chains by their succession attributes only); every element invoked from Python with '
         'random arguments. Non-trivial = the invocation reaches at least one nested call; distinct by '
         'hash of (model rows, invocation).')
@@ -75,6 +76,11 @@ class Elem(object):
         self.recursive = False
         self.pure = True          # no instance creation / attribute write, calls only pure elements
 
+    @property
+    def uid(self):
+        '''elements are told apart by kind, owner and name (names alone may coincide)'''
+        return '%s/%s/%s' % (self.kind if self.kind != 'cop' and self.kind != 'iop' else 'op', self.owner, self.name)
+
 
 def call_node(e, args, target=None):
     '''expression node invoking element e with argument nodes {name: node}'''
@@ -86,7 +92,7 @@ def call_node(e, args, target=None):
         node = om.implicit_call(e.owner, e.name, items)
     else:
         node = om.icall(target, e.name, items)
-    return oalsem.S(node, ('call', e.kind, e.name, sem_items, target.sem if target is not None else None))
+    return oalsem.S(node, ('call', e.kind, e.uid, sem_items, target.sem if target is not None else None))
 
 
 class ModelGen(object):
@@ -127,6 +133,13 @@ class ModelGen(object):
             owner = {'b': 'EX', 'cop': 'K', 'iop': 'K'}.get(k)
             self.elems.append(Elem(k, '%s%d' % ({'f': 'fn', 'b': 'brg', 'cop': 'cop', 'iop': 'iop'}[k], i),
                                    ret, params, owner))
+        first_brg = [x for x in self.elems if x.kind == 'b']
+        if first_brg:
+            b0 = first_brg[0]
+            twin = Elem('b', b0.name, r.choice((INT, STR)), [], 'EY')
+            self.elems.insert(r.randint(1, len(self.elems)), twin)
+            fn_twin = Elem('f', b0.name, r.choice((INT, BOOL)), [('n', INT)])
+            self.elems.insert(r.randint(1, len(self.elems)), fn_twin)
         for i, e in enumerate(self.elems):
             if e.body is None:
                 e.body = self.body(e, i)
@@ -146,13 +159,13 @@ class ModelGen(object):
         self.der_text = om.render(om.body(self.der_body), self.render_rng, case=self.case)
 
     def is_pure(self, e):
-        by_name = dict((x.name, x) for x in self.elems)
+        by_name = dict((x.uid, x) for x in self.elems)
 
         def walk(sem):
             if isinstance(sem, tuple) and sem and isinstance(sem[0], str):
                 if sem[0] == 'create' or (sem[0] == 'assign' and sem[1][0] == 'attr'):
                     return False
-                if sem[0] == 'call' and (sem[2] == e.name or not by_name[sem[2]].pure):
+                if sem[0] == 'call' and (sem[2] == e.uid or not by_name[sem[2]].pure):
                     return False
             if isinstance(sem, (tuple, list)):
                 return all(walk(x) for x in sem)
@@ -347,9 +360,11 @@ class ModelGen(object):
             if e.kind == 'f':
                 d.functions.append((bp.Callable_(e.name, TYNAME[e.ret], [(pn, TYNAME[pt]) for pn, pt in e.params],
                                                  e.text), 'pkg'))
-        brgs = [bp.Callable_(e.name, TYNAME[e.ret], [(pn, TYNAME[pt]) for pn, pt in e.params], e.text)
-                for e in self.elems if e.kind == 'b']
-        d.ees = [('External', 'EX', brgs, 'pkg')]
+        d.ees = []
+        for owner, name in (('EX', 'External'), ('EY', 'Second')):
+            brgs = [bp.Callable_(e.name, TYNAME[e.ret], [(pn, TYNAME[pt]) for pn, pt in e.params], e.text)
+                    for e in self.elems if e.kind == 'b' and e.owner == owner]
+            d.ees.append((name, owner, brgs, 'pkg'))
         items = []
         for name, ty, v in self.consts:
             items.append((name, TYNAME[ty], {True: 'true', False: 'false'}.get(v, str(v)) if ty == BOOL else str(v)))
@@ -389,7 +404,7 @@ class CallRef(object):
         return ret
 
     def dispatch(self, kind, name, kwargs, caller, target):
-        elem = [e for e in self.gen.elems if e.name == name][0]
+        elem = [e for e in self.gen.elems if e.uid == name][0]
         # the callee allocates ids from the shared counter
         self.ids[0] = caller.id_counter
         ret = self.invoke(elem, kwargs, target)
@@ -503,7 +518,7 @@ def run_case(ctx, rng):
                     got = comp.find_symbol(e.name)(**kwargs)
                 elif e.kind == 'b':
                     ctx.hit('Call.python-bridge')
-                    got = getattr(comp.find_symbol('EX'), e.name)(**kwargs)
+                    got = getattr(comp.find_symbol(e.owner), e.name)(**kwargs)
                 elif e.kind == 'cop':
                     ctx.hit('Call.python-class-operation')
                     got = getattr(comp.find_class('K'), e.name)(**kwargs)
